@@ -362,7 +362,14 @@ func check(c Case) pbt.Verdict {
 
 	form := mkForm(name)
 	type planted struct{ s string }
-	ctx := context.WithValue(context.Background(), p.ctxKey, planted{"planted"})
+	// the embedder evaluates under a context type of its own (a struct embedding context.Context)
+	mkCtx := func(inner context.Context) context.Context {
+		if c.Pkg == "dot" {
+			return withdot.AppCtx{Context: inner, User: "u"}
+		}
+		return nodot.AppCtx{Context: inner, User: "u"}
+	}
+	ctx := mkCtx(context.WithValue(context.Background(), p.ctxKey, planted{"planted"}))
 	p.reset(c.Mode)
 	r := box.Eval(ctx, types.List{Val: form}, e)
 	ents := p.entries()
@@ -463,7 +470,7 @@ func check(c Case) pbt.Verdict {
 	// same Done channel) sees THAT context
 	if wantEntered && hasCtx {
 		p.reset("ok")
-		ctxB := context.WithValue(context.Background(), p.ctxKey, planted{"planted-for-the-second-call"})
+		ctxB := mkCtx(context.WithValue(context.Background(), p.ctxKey, planted{"planted-for-the-second-call"}))
 		rb := box.Eval(ctxB, types.List{Val: form}, e)
 		eb := p.entries()
 		if rb.Panicked {
